@@ -14,6 +14,8 @@ package main
 //	which=4  overlapping saves         case = (table (script ...) K)       obs = ((loadres (done_j ...)) ...)
 //	         K goroutines each loop {real commit of the next offset of one of their jobs; real save} on ONE
 //	         offsetDB (what persistence_mode=sync does) while a checker keeps parsing the current file
+//	which=5  table sequence            case = (table ...)               obs = ((#filebytes loadres) ...)
+//	         the tables are saved one after the other by ONE offsetDB (its 64 KiB buffer and snapshot slice are reused)
 //
 // which=2 runs a helper process (this binary, "c07helper") that performs ONE real save under
 // `strace -f -e inject=...`: the k-th call of one kind fails with EIO/ENOSPC or the process is killed on
@@ -37,6 +39,7 @@ import (
 	"sync"
 	"sync/atomic"
 	"time"
+	"unsafe"
 
 	"github.com/ozontech/file.d/logger"
 	"github.com/ozontech/file.d/offset"
@@ -637,8 +640,58 @@ func execOverlap(cs hx.Sx) hx.Sx {
 	return hx.L(reads...)
 }
 
+// ---- which=5: a sequence of tables saved by ONE offsetDB instance ---------------------------------------
+// providerJobs reaches the (unexported) job table of the provider: the export file offers no way to change the
+// table of a live provider, and a new provider would bring a new offsetDB (fresh 64 KiB buffer, fresh snapshot
+// slice). The harness only swaps the map's content — what addJob / deleteJobAndUnlock do under jobsMu.
+func providerJobs(p *filein.VerifC07Provider) map[pipeline.SourceID]*filein.Job {
+	jp := reflect.ValueOf(p).Elem().FieldByName("jp").Elem() // the jobProvider struct (addressable)
+	f := jp.FieldByName("jobs")
+	return *(*map[pipeline.SourceID]*filein.Job)(unsafe.Pointer(f.UnsafeAddr()))
+}
+
+func execSequence(cs hx.Sx) hx.Sx {
+	tables := hx.Items(cs)
+	if len(tables) == 0 {
+		return hx.L()
+	}
+	d := scratch()
+	defer os.RemoveAll(d)
+	cur := filepath.Join(d, "offsets.yaml")
+	var p *filein.VerifC07Provider
+	var live map[pipeline.SourceID]*filein.Job
+	var out []hx.Sx
+	for i, t := range tables {
+		table := decodeTable(t)
+		pn := hx.Catch(func() {
+			if i == 0 {
+				p = filein.VerifC07NewProvider(cur, cur+".atomic", table)
+				live = providerJobs(p)
+			} else {
+				donor := providerJobs(filein.VerifC07NewProvider(cur+".unused", cur+".unused.atomic", table))
+				for k := range live {
+					delete(live, k)
+				}
+				for k, j := range donor {
+					live[k] = j
+				}
+			}
+			p.Save()
+		})
+		if pn != "" {
+			out = append(out, hx.L(hx.S(""), hx.L(hx.I(2))))
+			continue
+		}
+		content, _ := os.ReadFile(cur)
+		out = append(out, hx.L(hx.B(content), realLoad(cur)))
+	}
+	return hx.L(out...)
+}
+
 func exec07(which int, cs hx.Sx) hx.Sx {
 	switch which {
+	case 5:
+		return execSequence(cs)
 	case 0:
 		return execRoundtrip(cs)
 	case 1:
@@ -1012,11 +1065,254 @@ func gen07(c *hmain.Ctx) {
 		c.W.Count(fmt.Sprintf("concurrent-saves: K=%d", k))
 		c.W.Count(fmt.Sprintf("concurrent-saves: distinct file states seen by the checker in one run >= %d", len(hx.Items(obs))/25*25))
 	}
+	if os.Getenv("C07_SKIP_THRESHOLDS") == "" { // development aid: time the streams above alone
+		genThresholds(c)
+	}
 	if scratchRoot != "" {
 		os.RemoveAll(scratchRoot)
 	}
 	_ = sort.Strings
 	_ = bytes.Equal
+}
+
+// ---- scale / history thresholds of offset.go and provider.commit (audit items 25, 27) ---------------------
+const offsetsBufCap = 65536 // offset.go:45  buf: make([]byte, 0, 65536)
+
+// k8sTable: n jobs named like kubelet's pod log files (about 120 bytes each), one or two streams per job
+func k8sTable(r *hx.Rng, n int, base uint64) []filein.VerifC07Job {
+	hexs := func(k int) string {
+		b := make([]byte, k)
+		for i := range b {
+			b[i] = "0123456789abcdef"[r.Intn(16)]
+		}
+		return string(b)
+	}
+	t := make([]filein.VerifC07Job, 0, n)
+	for i := 0; i < n; i++ {
+		name := fmt.Sprintf("/var/log/pods/%s_%s-%s-%s_%s-%s-%s-%s-%s/%s/%d.log",
+			hx.Pick(r, []string{"default", "kube-system", "monitoring-stack", "payments-prod"}),
+			hx.Pick(r, []string{"api-gateway", "file-d", "checkout-service-worker", "x"}), hexs(10), hexs(5),
+			hexs(8), hexs(4), hexs(4), hexs(4), hexs(12), hx.Pick(r, []string{"app", "istio-proxy", "init-migrations"}), r.Intn(12))
+		j := filein.VerifC07Job{Filename: name, Inode: base + uint64(i), SourceID: base + 1000000 + uint64(i), Timestamp: int64(1700000000000000000 + i)}
+		j.Streams = []filein.VerifC07Stream{{Name: "stdout", Offset: int64(r.U64() >> uint(24+r.Intn(30)))}}
+		if r.Chance(1, 3) {
+			j.Streams = append(j.Streams, filein.VerifC07Stream{Name: "stderr", Offset: int64(r.Intn(1 << 20))})
+		}
+		t = append(t, j)
+	}
+	return t
+}
+
+// tableBytes = the number of bytes offsetDB.save writes for the table (jobs without streams are skipped)
+func tableBytes(t []filein.VerifC07Job) int {
+	n := 0
+	for _, j := range t {
+		if len(j.Streams) == 0 {
+			continue
+		}
+		n += len("- file: ") + len(j.Filename) + 1
+		n += len("  inode: ") + len(strconv.FormatUint(j.Inode, 10)) + 1
+		n += len("  source_id: ") + len(strconv.FormatUint(j.SourceID, 10)) + 1
+		n += len("  last_read_timestamp: ") + len(strconv.FormatInt(j.Timestamp, 10)) + 1
+		n += len("  streams:\n")
+		for _, s := range j.Streams {
+			n += 4 + len(s.Name) + 2 + len(strconv.FormatUint(uint64(s.Offset), 10)) + 1
+		}
+	}
+	return n
+}
+
+// sizedTable: a k8s table whose file is exactly `size` bytes long (the last file name is padded / a job is dropped)
+func sizedTable(r *hx.Rng, size int, base uint64) []filein.VerifC07Job {
+	t := k8sTable(r, size/180+40, base)
+	for len(t) > 1 && tableBytes(t) > size-200 {
+		t = t[:len(t)-1]
+	}
+	if pad := size - tableBytes(t); pad > 0 {
+		t[len(t)-1].Filename += strings.Repeat("p", pad)
+	}
+	return t
+}
+
+func genThresholds(c *hmain.Ctx) {
+	r := c.R
+	sizeClass := func(n int) string {
+		switch {
+		case n < offsetsBufCap:
+			return "< 64 KiB"
+		case n == offsetsBufCap:
+			return "= 64 KiB"
+		case n <= offsetsBufCap+1:
+			return "= 64 KiB + 1"
+		case n < 2*offsetsBufCap:
+			return "64..128 KiB"
+		}
+		return "> 128 KiB"
+	}
+	// ---- big-table (which 0): the offsets file outgrows the 64 KiB initial capacity of offsetDB.buf. Sizes exactly at,
+	//      one below and one above the capacity, and 300..900 k8s-length names. In process (the strace helper takes the
+	//      table as ONE argv string, limited to 128 KiB). Exposes: a save that writes only cap(o.buf) bytes / writes in
+	//      buffer-sized pieces (several write calls: a crash between them leaves a torn temp file renamed over the good
+	//      one), or any assumption that one pods directory fits the initial buffer.
+	sizes := []int{offsetsBufCap - 1, offsetsBufCap, offsetsBufCap + 1}
+	for i := 0; i < 2*c.Scale; i++ {
+		sizes = append(sizes, r.Range(70000, 200000))
+	}
+	for _, sz := range sizes {
+		t := sizedTable(r, sz, uint64(r.Intn(1<<30)))
+		c.W.Count("big-table: file size " + sizeClass(tableBytes(t)))
+		c.W.Count(fmt.Sprintf("big-table: jobs >= %d", len(t)/100*100))
+		c.Do("big-table", 0, encodeTable(t), true)
+	}
+
+	// ---- table-sequence (which 5): SEVERAL saves of different tables by ONE offsetDB instance (VerifC07Save builds a
+	//      new offsetDB per call, so o.buf = o.buf[:0] and o.jobsSnapshot[:0] were never exercised with a shorter table
+	//      after a longer one). Directed: big then small, small-big-small, shrinking by removed jobs, sizes around the
+	//      capacity in both directions, a table without streams (empty file) in the middle; random: 2..6 small tables
+	//      with the nasty names of `roundtrip`. Exposes: a missing buffer / snapshot reset (stale jobs or stale bytes of
+	//      the longer save survive in the shorter file — the parser may even accept them), a buffer that is kept only
+	//      up to its first capacity.
+	seq := func(tag string, ts ...[]filein.VerifC07Job) {
+		var items []hx.Sx
+		shape := ""
+		for _, t := range ts {
+			items = append(items, encodeTable(t))
+			if tableBytes(t) >= offsetsBufCap {
+				shape += "B"
+			} else {
+				shape += "s"
+			}
+		}
+		if len(shape) > 6 {
+			shape = shape[:6] + "+"
+		}
+		c.W.Count("table-sequence: " + tag + " sizes (B = 64 KiB or more, s = less) " + shape)
+		c.Do("table-sequence", 5, hx.L(items...), true)
+	}
+	for i := 0; i < 1*c.Scale; i++ {
+		big := sizedTable(r, r.Range(66000, 90000), 100)
+		small := genTable(r, 4, false)
+		seq("directed", big, small)
+		seq("directed", small, big, small[:len(small)/2])
+		half := append([]filein.VerifC07Job{}, big[:len(big)/2]...)
+		seq("directed", big, half, big[:1], nil, big)
+		seq("directed", sizedTable(r, offsetsBufCap, 5), sizedTable(r, offsetsBufCap+1, 5), sizedTable(r, offsetsBufCap-1, 5), sizedTable(r, 3*offsetsBufCap, 5), sizedTable(r, 300, 5))
+	}
+	for i := 0; i < 250*c.Scale; i++ {
+		var ts [][]filein.VerifC07Job
+		for n := r.Range(2, 6); n > 0; n-- {
+			t := genTable(r, 5, true)
+			if len(ts) > 0 && r.Chance(1, 3) { // the next table = the previous one with some jobs removed / offsets moved on
+				prev := ts[len(ts)-1]
+				t = nil
+				for _, j := range prev {
+					if r.Chance(1, 3) {
+						continue
+					}
+					jj := j
+					jj.Streams = append([]filein.VerifC07Stream{}, j.Streams...)
+					for k := range jj.Streams {
+						if jj.Streams[k].Offset < 1<<62 && r.Bool() {
+							jj.Streams[k].Offset += int64(r.Range(1, 1000))
+						}
+					}
+					t = append(t, jj)
+				}
+			}
+			ts = append(ts, t)
+		}
+		seq("random", ts...)
+	}
+
+	// ---- large offsets (provider.go:291: `value == 0 && event.Offset >= 16 MiB` = "possible corruption" branch):
+	//      the FIRST commit of a stream the job has not seen yet lies at 16 MiB or far beyond (2^32, 2^40, 2^62), raced
+	//      against saves (which 3) and inside overlapping {commit; save} loops (which 4). Exposes: the branch turning
+	//      into a rejection (`return` after the metric: the commit is lost and the final save misses it), offsets
+	//      formatted / parsed through a narrower integer type.
+	bigFirst := func() int64 {
+		switch r.Intn(5) {
+		case 0:
+			return 16 * 1024 * 1024 // exactly the threshold
+		case 1:
+			return 16*1024*1024 - 1 // just below: the ordinary path
+		case 2:
+			return 1<<32 + int64(r.Intn(1000))
+		case 3:
+			return 1<<40 + int64(r.Intn(1<<20))
+		}
+		return 1<<62 + int64(r.Intn(1<<30))
+	}
+	largeScripts := func(t []filein.VerifC07Job, lo, hi int) []hx.Sx {
+		var scripts []hx.Sx
+		for ji := range t {
+			cur := map[string]int64{}
+			for _, s := range t[ji].Streams {
+				cur[s.Name] = s.Offset
+			}
+			pool := []string{"stdout", "stderr", "", "late: 1", "late2"}
+			var sc []hx.Sx
+			for n := r.Range(lo, hi); n > 0; n-- {
+				name := hx.Pick(r, pool)
+				if _, seen := cur[name]; !seen {
+					cur[name] = bigFirst()
+					c.W.Count("large-offsets: first commit of a new stream " + map[bool]string{true: ">= 16 MiB", false: "< 16 MiB"}[cur[name] >= 16*1024*1024])
+				} else {
+					cur[name] += int64(r.Range(1, 1<<20))
+				}
+				sc = append(sc, hx.L(hx.S(name), hx.Z(cur[name])))
+			}
+			scripts = append(scripts, hx.L(sc...))
+		}
+		return scripts
+	}
+	smallJobs := func(n int) []filein.VerifC07Job {
+		t := k8sTable(r, n, uint64(r.Intn(1<<20)))
+		for i := range t {
+			t[i].Streams = t[i].Streams[:1]
+			t[i].Streams[0].Offset = int64(r.Range(1, 50))
+			if r.Chance(1, 3) {
+				t[i].Streams = nil // nothing committed yet: the job's very first commit is a large one
+			}
+		}
+		return t
+	}
+	for i := 0; i < 12*c.Scale; i++ {
+		t := smallJobs(r.Range(1, 3))
+		c.Do("concurrent-large-offsets", 3, hx.L(encodeTable(t), hx.L(largeScripts(t, 5, 40)...), hx.I(r.Range(2, 8))), true)
+	}
+	for i := 0; i < 4*c.Scale; i++ {
+		t := smallJobs(r.Range(6, 16))
+		for k := range t {
+			if len(t[k].Streams) == 0 { // which 4 expects every job to be listed from the first save on
+				t[k].Streams = []filein.VerifC07Stream{{Name: "stdout", Offset: 1}}
+			}
+		}
+		k := r.Range(2, 5)
+		c.W.Count(fmt.Sprintf("concurrent-saves-large: K=%d", k))
+		c.Do("concurrent-saves-large", 4, hx.L(encodeTable(t), hx.L(largeScripts(t, 4, 14)...), hx.I(k)), true)
+	}
+	// ---- overlapping saves of a table LARGER than the buffer (which 4): K goroutines {commit; save} on one offsetDB of
+	//      280..340 k8s jobs while the checker parses the file. Exposes: a save that hands o.buf to the write after
+	//      releasing o.mu (append reallocates beyond 64 KiB: the other save writes into the old array), torn files.
+	for i := 0; i < 1*c.Scale; i++ {
+		t := k8sTable(r, r.Range(280, 340), 7000)
+		for k := range t {
+			t[k].Streams = t[k].Streams[:1]
+			t[k].Streams[0].Offset = int64(r.Range(1, 50))
+		}
+		var scripts []hx.Sx
+		for range t {
+			cur := int64(100)
+			var sc []hx.Sx
+			for n := r.Range(1, 2); n > 0; n-- {
+				cur += int64(r.Range(1, 1<<30))
+				sc = append(sc, hx.L(hx.S("stdout"), hx.Z(cur)))
+			}
+			scripts = append(scripts, hx.L(sc...))
+		}
+		c.W.Count("concurrent-saves-big-table: file size " + sizeClass(tableBytes(t)))
+		c.Do("concurrent-saves-big-table", 4, hx.L(encodeTable(t), hx.L(scripts...), hx.I(r.Range(2, 4))), true)
+	}
 }
 
 func main() {
